@@ -45,9 +45,10 @@ end MemberV
 
 /-! ### insertion-ordered dictionary (Python `dict`) -/
 
-def dictSet {β : Type} (d : List (String × β)) (k : String) (v : β) : List (String × β) :=
-  if d.any (·.1 == k) then d.map (fun e => if e.1 == k then (k, v) else e)
-  else d ++ [(k, v)]
+/-- replace in place when the key exists (position kept), append otherwise -/
+def dictSet {β : Type} : List (String × β) → String → β → List (String × β)
+  | [], k, v => [(k, v)]
+  | e :: d, k, v => if e.1 == k then (k, v) :: d else e :: dictSet d k v
 
 def dictGet? {β : Type} (d : List (String × β)) (k : String) : Option β :=
   (d.find? (·.1 == k)).map (·.2)
@@ -111,22 +112,25 @@ def sortbyPerm (g : DgV) (perm : List Int) : DgV × Option Err :=
 /-- content equality (the repaired `__eq__`): same key *set*... Python compares
     `dict.keys()` views, i.e. as sets; then every member must be element-wise equal
     after unit conversion. -/
-def memberEq (a b : MemberV) : Res Bool :=
+def memberEq (T : Tables) (a b : MemberV) : Res Bool :=
   match a, b with
   | .arr x, .arr y => do
-    let r ← ArrV.binaryOp .ne x y
+    let r ← ArrV.binaryOp T .ne x y
     pure (r.data.all (· == 0))
   | .vec v, .vec w => do
-    let r ← v.binaryOp .ne (.vec w)
+    let r ← v.binaryOp T .ne (.vec w)
     pure (r.comps.all fun c => c.data.all (· == 0))
   | .vec v, .arr y => do
-    let r ← v.binaryOp .ne (.arr y)
+    let r ← v.binaryOp T .ne (.arr y)
     pure (r.comps.all fun c => c.data.all (· == 0))
-  | .arr _, .vec _ => .error .typeErr
+  | .arr x, .vec w => do
+    -- Array.__ne__(Vector) returns NotImplemented; Python falls back to Vector.__ne__(Array)
+    let r ← w.binaryOp T .ne (.arr x)
+    pure (r.comps.all fun c => c.data.all (· == 0))
 
 /-- `Datagroup.__eq__` (repaired): key sets equal and no member differs anywhere.
     Members are compared in insertion order of `g`; the first difference answers. -/
-def eq (g h : DgV) : Res Bool :=
+def eq (T : Tables) (g h : DgV) : Res Bool :=
   let kg := dictKeys g
   let kh := dictKeys h
   if !(kg.all (kh.contains ·) && kh.all (kg.contains ·)) then .ok false
@@ -137,7 +141,7 @@ def eq (g h : DgV) : Res Bool :=
         match dictGet? h k with
         | none => .ok false
         | some m' =>
-          match memberEq m m' with
+          match memberEq T m m' with
           | .error e => .error e
           | .ok false => .ok false
           | .ok true => go rest
